@@ -24,15 +24,22 @@ CLAIMS = {
              'element under the handle renaming, XML of both, parents, then mutation histories on either side.',
         design='8 C09'),
     'C11': dict(
-        technique='Rocq proof of block ID assignment / validation and of type consistency call by call (partial: not yet as '
-                  'an invariant of histories) + differential run with the ID-shape oracle on every snapshot',
-        text='Partial. Proved (Props/Properties_C11.v, Heap/BlockIds.v) for all inputs: a block without ID gets the channel '
-             'format\'s type and value and the next counter (1 for the first); an explicit block ID with another type, value '
-             'or a counter that does not continue the numbering throws and changes nothing; adding keeps labelling and '
-             'consecutive numbering of the vector; set(AudioChannelFormatId) moves the value of all block IDs and nothing '
-             'else; reassignBlockFormats labels and numbers the own-type vector from 1 keeping times and payloads; pack and '
-             'channel formats only get IDs of their own type descriptor; a track format without ID takes type and value '
-             'of its stream format. That every reachable state satisfies the labelling is explored on libadm\'s snapshots.',
+        technique='Rocq proof: the labelling of pack formats, channel formats and their blocks as an invariant of every '
+                  'history of the modelled calls incl. block additions, copies, deepCopy, deepCopyTo, reassignIds and '
+                  'updateBlockFormatDurations (Heap/Labels.v), block ID assignment / validation call by call '
+                  '(Heap/BlockIds.v) + differential run with the ID-shape oracle on every snapshot',
+        text='Proved (Props/Properties_C11.v; Heap/Labels.v, Heap/BlockIds.v). For every history of the modelled calls from '
+             'the empty state: a pack or channel format with a defined ID carries its own type descriptor in that ID; every '
+             'block vector of a channel format carries the channel format\'s type and consecutive counters in order; while '
+             'the channel format\'s ID is defined every block carries its value (libadm leaves the blocks alone when the '
+             'ID is set back to the undefined ID, and the property speaks of channel formats with a defined ID). For all '
+             'inputs, call by call: a block without ID gets the channel format\'s type and value and the next counter (1 '
+             'for the first); an explicit block ID with another type, value or a counter that does not continue the '
+             'numbering throws and changes nothing; set(AudioChannelFormatId) moves the value of all block IDs and nothing '
+             'else; reassignBlockFormats labels and numbers the own-type vector from 1 keeping times and payloads; a track '
+             'format without ID takes type and value of its stream format at that moment. Partial in one respect: '
+             'documents produced by the parser are not histories of the model; for them the labelling is explored by the '
+             'ID-shape oracle on parsed files (C01/C02 runs).',
         design='8 C11'),
     'C14': dict(
         technique='Rocq proof that the complete reassignIds changes IDs only (every outcome) and that the numbering loop is '
